@@ -50,7 +50,7 @@ claim('C06', 'deviation-bounded exhaustive enumeration; JSON writer output judge
       RT_NOTE % ', ref/refjson.py (DESIGN.md Appendix B)', 'DESIGN.md 5 C06')
 
 claim('C20', 'exhaustive enumeration of operator x operand pair x operand shape against the same expression on bare values',
-      'Complete product of 13 arithmetic/bitwise + 6 comparison operators x 17^2 boundary operands (zeros, negatives, 2^62, bool, tiny, huge, '
+      'Complete product of 13 arithmetic/bitwise + 6 comparison operators x 19^2 boundary operands (zeros, negatives, 2^62, 2^53+1, 10^400, bool, tiny, huge, '
       'inf, nan) x 6 shapes (Quantity left, right, both with same / different / no unit) x units, 3-argument pow, 7 unary operators and '
       'conversions; the result must be identical in type and value (NaN- and signed-zero-aware) or raise the same exception class as the bare '
       'expression; comparisons across differing units must raise TypeError.',
